@@ -206,8 +206,23 @@ pub fn run(ctx: &Ctx) -> Report {
                 }
             }
         }
+        // optional kernel facilities absent: whatever path is taken instead must still tell the truth
+        for d in drivers() {
+            for upd in ["chan", "rec"] {
+                for (tn, tree, _) in trees(4096) {
+                    let mut s = Scenario::new(&format!("api-absent-{}-{}-{}", tn, d, upd), tree, &["copy", d, "2", "4096", upd, "dst", "src"]);
+                    s.prog = Prog::ApiProbe;
+                    let s = Arc::new(s);
+                    for (call, en) in [("ioctl:FIEMAP", libc::EOPNOTSUPP), ("copy_file_range", libc::ENOSYS), ("copy_file_range", libc::EXDEV)] {
+                        let mut sp = RunSpec::base(Policy::P0);
+                        sp.faults.push(Fault { call: call.into(), thread: None, nth: None, path_contains: None, action: Action::Errno(en) });
+                        jobs.push((s.clone(), sp, 0));
+                    }
+                }
+            }
+        }
         let st = explore(&ctx.pool, jobs, j);
-        rep.part("every legal short count at every data-moving call, and small-kernel runs", st, serde_json::json!({}));
+        rep.part("every legal short count at every data-moving call, small-kernel runs, FIEMAP / copy_file_range unsupported", st, serde_json::json!({}));
         rep.machinery_errors.extend(errs);
     }
     rep.assumptions = vec!["updates are ordered against data-moving calls through marker calls emitted by the client at delivery time (the trace is a total order)".into()];
